@@ -55,9 +55,9 @@ def load_known():
             if line.startswith('fixed:'):
                 fixed.append(line)
                 continue
-            mo = re.match(r'property=(\S+)\s+proof=(\S+)\s+obligation=(\S+)\s*::\s*(.*)$', line)
+            mo = re.match(r'property=(\S+)\s+proof=(\S+)\s+obligation=(\S+)(?:\s+site=(\S+))?\s*::\s*(.*)$', line)
             if mo:
-                known.append({'property': mo.group(1), 'proof': mo.group(2), 'obligation': mo.group(3), 'what': mo.group(4)})
+                known.append({'property': mo.group(1), 'proof': mo.group(2), 'obligation': mo.group(3), 'site': mo.group(4), 'what': mo.group(5)})
     return known, fixed
 
 
@@ -65,6 +65,7 @@ def check_cpd_types():
     """Supporting fact: field types of the env cp_data_t equal those of the real struct."""
     real = slicer.slice_struct(REPO, 'src/uncrustify_types.h', 'cp_data_t').text
     stub = open(os.path.join(VERIF, 'env/cpd.h')).read()
+    stub = stub[re.search(r'^struct cp_data_t', stub, re.M).start():]
     bad = []
     norm = lambda t: re.sub(r'\s+', ' ', t.replace('VERIF_E_TOKEN_T', 'E_Token').replace('VERIF_UNC_STAGE_T', 'unc_stage_e')).strip()
     for mo in re.finditer(r'^\s*([\w:<> ]+?[\s\*]+)(\w+)(\[[^\]]*\])?\s*;\s*//@f', stub, re.M):
@@ -86,7 +87,8 @@ def prepare(workroot, need_options=False):
              if h.endswith('.h') and h not in ENV_HEADERS and '//@struct' in open(os.path.join(VERIF, 'env', h)).read()]
     gen.gen_offsets(hdrs + sorted(extra), gdir)
     if need_options:
-        gen.gen_options(REPO, gdir)
+        opts = gen.gen_options(REPO, gdir)
+        gen.gen_space(REPO, gdir, opts)
     gen.gen_consts(REPO, gdir)
 
 
@@ -198,7 +200,15 @@ def main():
                 undecided.append('%s: %s' % (p.name, res['reason']))
             elif res['verdict'] == 'violation':
                 for f in res['failures']:
-                    k = [k for k in known if k['proof'] == p.name and re.search(k['obligation'], f['obligation'] + ' ' + (f['description'] or ''))]
+                    site = ''
+                    if getattr(p, 'site', None):
+                        try:
+                            site = p.site(f) or ''
+                        except Exception as e:
+                            site = 'site-error:%r' % (e,)
+                    f['site'] = site
+                    k = [k for k in known if k['proof'] == p.name and re.search(k['obligation'], f['obligation'] + ' ' + (f['description'] or ''))
+                         and (not k.get('site') or re.search(k['site'], site))]
                     if k:
                         known_hits.append((k[0], p, f))
                     else:
@@ -227,7 +237,7 @@ def main():
             path = write_replay(pid, p, res, f, {'reproduced_on_real_code': bool(found), 'detail': note})
             vl = 'VIOLATION property=%s replay=%s%s' % (pid, path, '' if found else ' no-failing-input-found')
             vlines.append(vl)
-            print('  failed obligation: %s :: %s @ %s (proof %s)' % (f['obligation'], f['description'], f['location'], p.name))
+            print('  failed obligation: %s :: %s @ %s (proof %s) %s' % (f['obligation'], f['description'], f['location'], p.name, f.get('site', '')))
             print(vl, flush=True)
         write_evidence(evidence_path, pid, tier, seed, mod, results, known_hits, t0, undecided=undecided,
                        facts=facts, violations=len(violations), mutants=mutant_results)
@@ -237,8 +247,8 @@ def main():
             for u in undecided:
                 print('UNDECIDED property=%s reason=%s' % (pid, u[:600]))
             return 2
-        print('OK property=%s proofs=%d obligations=%d all discharged' % (
-            pid, len(results), sum(r['obligations'] for _, r in results)))
+        print('OK property=%s proofs=%d obligations=%d discharged=%d known-finding-obligations=%d' % (
+            pid, len(results), sum(r['obligations'] for _, r in results), sum(r['discharged'] for _, r in results), len(known_hits)))
         return 0
     finally:
         if not keep:
@@ -248,9 +258,11 @@ def main():
 
 
 def write_evidence(path, pid, tier, seed, mod, results, known_hits, t0, undecided=(), facts=(), violations=0, mutants=()):
+    n_known = len(known_hits)
     proved = [(p, r) for p, r in results if p.kind == 'proof']
     bounded = [(p, r) for p, r in results if p.kind != 'proof']
-    obligations = sum(r['obligations'] for p, r in proved)
+    # obligations that fail as a *listed known finding* are reported separately and are not part of the proof claim
+    obligations = sum(r['obligations'] for p, r in proved) - n_known
     discharged = sum(r['discharged'] for p, r in proved)
     fns = {}
     for p, r in results:
@@ -269,7 +281,7 @@ def write_evidence(path, pid, tier, seed, mod, results, known_hits, t0, undecide
             'trusted_base': ['cbmc 6.11.0 (goto-cc C++ front end, goto-instrument --dfcc, built-in SAT)', '/verif/env stubs', 'desugaring rules D1-D8 of tools/slicer.py'],
             'samples': samples[:40],
             'explanation': getattr(mod, 'EXPLANATION', ''),
-            'proofs': len(proved), 'bounded_standins': len(bounded),
+            'proofs': len(proved), 'bounded_standins': len(bounded), 'known_finding_obligations_excluded': n_known,
             'solver_seconds_total': round(sum(r['solver_s'] for p, r in results), 1),
         },
         'functions_under_contract': sorted(fns.values(), key=lambda s: (s['file'], s['name'])),
